@@ -13,6 +13,7 @@ import pathlib
 import shutil
 import sys
 import tempfile
+import unicodedata
 
 PID = "C28"
 LEVEL = "exploration"
@@ -35,7 +36,21 @@ RULE = ("names: every sequence of 1..4 (thorough: 1..5) segments over {'..','.',
         "'.', '', leading and trailing '/'; the answer must be TemplateNotFound (any other exception is "
         "a violation) unless a LATER search directory holds a regular file under that name (sp2 does for "
         "the symlink / socket / directory names and has a directory where sp1 has a file), which must then "
-        "be returned. compositions: random ChoiceLoader/PrefixLoader/DictLoader "
+        "be returned. names EQUIVALENT to path metacharacters (same loader configurations, "
+        "get_source and get_template, same audit monitor): every code point that is not '.', '/', "
+        "'\\' or ':' but whose NFKC / NFKD / NFC / NFD / casefold / lower / upper form contains one "
+        "(set computed from unicodedata: one/two dot leaders, small and full-width full stop / "
+        "solidus / reverse solidus / colon, 'a/c', '1.', ellipsis ...); every string of <=2 such "
+        "characters (and '.') that translates to '..' put into 8 escape shapes (D/b.txt, D/D/b.txt, "
+        "a/D/D/b.txt, /D/b.txt ...), every separator equivalent into 7 shapes (..Sb.txt, "
+        "aS..S..Sb.txt, DSDSDSsecret.txt, a sentinel's absolute path with S for '/'), alone and "
+        "combined with translated parent references, every other such code point as a piece / "
+        "doubled / next to real dots / in front of translated parent references; the same shapes "
+        "spelled percent-encoded (%2e, %2E, %252e, %2f, %5c) and as over-long UTF-8 (surrogate-"
+        "escaped bytes C0 AE / C0 AF); '..' with every format character (category Cf) and every "
+        "space separator (Zs, tab) inside, before and after it. Whatever the loader answers, the "
+        "audit monitor must see no open() outside the search directories and no sentinel content "
+        "may come back. compositions: random ChoiceLoader/PrefixLoader/DictLoader "
         "(and FileSystemLoader leaves) trees of depth<=3, all names of <=2 and a fifth of those of 3 segments over 6 fragments (+ ':' / '.' delimiter variants), "
         "get_source and get_template compared with a 10-line resolution model; leaves are DictLoader, "
         "FunctionLoader (load function answering with a str or a (source, filename, uptodate) tuple, "
@@ -68,6 +83,11 @@ ASSUMPTIONS = [
     "key for dict / function loaders); FIFOs, devices and permission-denied files are not planted "
     "(opening a FIFO blocks, the harness may run as root); hostile names are not used in the dynamic "
     "compositions",
+    "names equivalent to path metacharacters: the translations are Unicode normalisation and case "
+    "mapping as implemented by this interpreter's unicodedata, percent-decoding, lenient UTF-8 decoding "
+    "and dropping of Cf / Zs characters; at most two translated characters per parent reference; no "
+    "files with such names are planted inside the search directories (whether a loader finds or "
+    "rejects a literal name of that kind is not judged, only what it opens)",
     "PackageLoader is exercised for a regular directory package only (no zip, no namespace package)",
     "opens made by the import machinery (importlib frames on the stack) are not attributed to loaders",
     "a FunctionLoader leaf has a name iff its load function returns something other than None (the "
@@ -99,6 +119,12 @@ FLOORS = {
                            "hostile_socket": 6, "hostile_unencodable-surrogate": 13,
                            "special_entries_planted": 150,
                            "hostile_name_found_in_later_search_directory": 40,
+                           "equiv_names": 700, "equiv_lookups": 7000, "equiv_nfkc": 300,
+                           "equiv_as_dotdot": 450, "equiv_as_slash": 6,
+                           "equiv_as_slash+dotdot": 10, "equiv_as_holds-dot": 140,
+                           "equiv_percent-encoded": 40, "equiv_overlong-utf8": 8,
+                           "equiv_ignorable-format-character": 300,
+                           "equiv_space-separator": 30,
                            "compose_hostile_lookups": 9600,
                            "compose_hostile_lookups_with_filesystem_leaf": 3500,
                            "compose_hostile_found_with_filesystem_leaf": 450}},
@@ -122,6 +148,12 @@ FLOORS = {
                               "hostile_socket": 6, "hostile_unencodable-surrogate": 13,
                               "special_entries_planted": 150,
                               "hostile_name_found_in_later_search_directory": 40,
+                              "equiv_names": 700, "equiv_lookups": 7000, "equiv_nfkc": 300,
+                              "equiv_as_dotdot": 450, "equiv_as_slash": 6,
+                              "equiv_as_slash+dotdot": 10, "equiv_as_holds-dot": 140,
+                              "equiv_percent-encoded": 40, "equiv_overlong-utf8": 8,
+                              "equiv_ignorable-format-character": 300,
+                              "equiv_space-separator": 30,
                               "compose_hostile_lookups": 240000,
                               "compose_hostile_lookups_with_filesystem_leaf": 90000,
                               "compose_hostile_found_with_filesystem_leaf": 12000}},
@@ -383,6 +415,8 @@ def check_name(ctx, sb, mon, env, label, loader, roots, name, do_template, name_
     bad_piece = any(p == os.path.pardir or os.sep in p or (os.path.altsep and os.path.altsep in p)
                     for p in pieces)
     kind = label.split(":")[0]
+    # names equivalent to path metacharacters: the translation that would make them escape
+    eq_tag = ":" + name_class if name_class and name_class.startswith("equiv:") else ""
     found = False
     for api in (("get_source", "get_template") if do_template else ("get_source",)):
         if api == "get_source":
@@ -396,7 +430,7 @@ def check_name(ctx, sb, mon, env, label, loader, roots, name, do_template, name_
             if inside(p, roots):
                 ctx.count("opens_inside")
             else:
-                ctx.violation(f"{kind}:{api}:open-outside-search-path",
+                ctx.violation(f"{kind}:{api}:open-outside-search-path" + eq_tag,
                               f"{label}.{api}({name!r}) opened {p!r}, search roots {roots}", case)
         if e is not None and not isinstance(e, TemplateNotFound):
             shown = name if len(name) < 80 else name[:30] + "..." + name[-30:]
@@ -420,7 +454,7 @@ def check_name(ctx, sb, mon, env, label, loader, roots, name, do_template, name_
         src = r[0] if api == "get_source" else r
         found = True
         if SENT in src:
-            ctx.violation(f"{kind}:{api}:sentinel-read",
+            ctx.violation(f"{kind}:{api}:sentinel-read" + eq_tag,
                           f"{label}.{api}({name!r}) returned the content of a file outside the "
                           f"search path: {src[:120]!r}", case)
             continue
@@ -431,7 +465,7 @@ def check_name(ctx, sb, mon, env, label, loader, roots, name, do_template, name_
             continue
         nat = natural(pieces, roots)
         if nat is None or sb.contents.get(nat) != src:
-            ctx.violation(f"{kind}:{api}:wrong-file",
+            ctx.violation(f"{kind}:{api}:wrong-file" + eq_tag,
                           f"{label}.{api}({name!r}) returned {src[:80]!r}; the file the name "
                           f"designates is {nat!r}", case)
             continue
@@ -500,6 +534,171 @@ def part_hostile(ctx, sb, quick):
                 ctx.count("hostile_name_found_in_later_search_directory")
             ctx.dist(("hostile", cls, name if len(name) < 60 else name[:20] + "~" + str(len(name)),
                       label))
+
+
+# ------------------------------------ names EQUIVALENT to path metacharacters
+# Characters that are not '.', '/', '\\' or ':' but BECOME one (or a string
+# holding one) under a translation that sits, or may one day sit, between the
+# template name and the file system: Unicode normalisation (NFC / NFD / NFKC /
+# NFKD), case mapping (casefold / lower / upper), percent-decoding, lenient
+# UTF-8 decoding of over-long forms, stripping of white space or of ignorable
+# format characters.  The set is COMPUTED from unicodedata, nothing is listed
+# by hand.  Whatever the loader does with such a name, no file outside the
+# search directories may be opened.
+META_CHARS = "./\\:"
+_TRANSLATIONS = (("nfkc", lambda c: unicodedata.normalize("NFKC", c)),
+                 ("nfkd", lambda c: unicodedata.normalize("NFKD", c)),
+                 ("nfc", lambda c: unicodedata.normalize("NFC", c)),
+                 ("nfd", lambda c: unicodedata.normalize("NFD", c)),
+                 ("casefold", str.casefold), ("lower", str.lower), ("upper", str.upper))
+
+
+_EQ_CACHE = []
+
+
+def equivalent_codepoints():
+    """[(char, translation name, translated string)] for every code point that
+    is not itself a path metacharacter but whose normalised / case-mapped form
+    contains one (first translation that does, in the order above)."""
+    if _EQ_CACHE:
+        return _EQ_CACHE[0]
+    out = []
+    for cp in range(0x80, sys.maxunicode + 1):
+        if 0xD800 <= cp <= 0xDFFF:
+            continue
+        c = chr(cp)
+        for tn, fn in _TRANSLATIONS:
+            t = fn(c)
+            if t != c and any(m in t for m in META_CHARS):
+                out.append((c, tn, t))
+                break
+    _EQ_CACHE.append(out)
+    return out
+
+
+def format_and_space_chars():
+    """Code points a lenient layer may drop or strip: category Cf (format
+    characters: zero width space / joiner, soft hyphen, BOM, bidi marks ...)
+    and Zs (space separators)."""
+    cf, zs = [], []
+    for cp in range(sys.maxunicode + 1):
+        cat = unicodedata.category(chr(cp))
+        if cat == "Cf":
+            cf.append(chr(cp))
+        elif cat == "Zs":
+            zs.append(chr(cp))
+    return cf, zs
+
+
+# escape shapes: D = a parent reference, S = a separator; every name built from
+# them would leave the search directory if D / S were read as '..' / '/'
+# ('b.txt' and 'a/b.txt' exist as sentinels in every enclosing directory)
+D_SHAPES = ("D/b.txt", "D/D/b.txt", "a/D/D/b.txt", "D/a/b.txt", "/D/b.txt", "./D//D/b.txt",
+            "a/a../D/D/D/b.txt", "D")
+S_SHAPES = ("..Sb.txt", "aS..S..Sb.txt", "..S..SaSb.txt", "a/..S..Sb.txt", "DSb.txt",
+            "aSDSDSb.txt", "DSDSDSsecret.txt")
+
+
+def equivalence_names(sb):
+    """[(class, name)], deterministic order."""
+    eq = equivalent_codepoints()
+    dots = [c for c, _, t in eq if t == "."]
+    dotdots = [(c, tn) for c, tn, t in eq if t == ".."]
+    seps = [(c, tn, t) for c, tn, t in eq if t in ("/", "\\")]
+    out = []
+    # -- strings that translate to '..'
+    dds = [(c, f"{tn}:dotdot") for c, tn in dotdots]
+    singles = ["."] + dots
+    tn_of = {c: tn for c, tn, _ in eq}
+    for x in singles:
+        for y in singles:
+            if x == y == ".":
+                continue
+            dds.append((x + y, f"{tn_of[x if x != '.' else y]}:dotdot"))
+    for dd, cls in dds:
+        for shape in D_SHAPES:
+            out.append((cls, shape.replace("D", dd)))
+    # -- characters that translate to a separator, alone and with translated '..'
+    for c, tn, t in seps:
+        sepname = "slash" if t == "/" else "backslash"
+        for shape in S_SHAPES:
+            out.append((f"{tn}:{sepname}", shape.replace("S", c).replace("D", "..")))
+            for dd, _ in dds[:6] + dds[-2:]:
+                if "D" in shape:
+                    out.append((f"{tn}:{sepname}+dotdot", shape.replace("S", c).replace("D", dd)))
+        # the absolute path of a sentinel, separators translated
+        for p in sb.sentinels[:3]:
+            out.append((f"{tn}:{sepname}", p.replace("/", c)))
+            out.append((f"{tn}:{sepname}", "a" + p.replace("/", c)))
+    # -- every other code point whose translation holds a metacharacter ('1.', 'a/c', '...',
+    #    ':' ...): as a piece, doubled, next to real dots, and in front of translated '..'
+    for c, tn, t in eq:
+        if t in (".", "..", "/", "\\"):
+            continue
+        cls = f"{tn}:holds-" + ("slash" if "/" in t else "colon" if ":" in t
+                                 else "backslash" if "\\" in t else "dot")
+        for pat in ("{}", "{}/b.txt", "{}{}/b.txt", ".{}/b.txt", "{}./b.txt", "a/{}/b.txt",
+                    "C{}/b.txt", "{}/D/D/D/b.txt", "{}/D/D/D/D/b.txt"):
+            for dd in ((dds[0][0], dds[-1][0]) if "D" in pat else ("",)):
+                out.append((cls, pat.replace("D", dd).replace("{}", c)))
+    # -- percent-encoded and over-long UTF-8 (surrogate-escaped bytes) spellings
+    pct = {".": ("%2e", "%2E", "%252e"), "/": ("%2f", "%2F", "%252f"), "\\": ("%5c",)}
+    for d1 in (".",) + pct["."]:
+        for d2 in (".",) + pct["."]:
+            if d1 == d2 == ".":
+                continue
+            for shape in D_SHAPES[:4]:
+                out.append(("percent-encoded:dotdot", shape.replace("D", d1 + d2)))
+    for sp in pct["/"] + pct["\\"]:
+        for shape in S_SHAPES[:4]:
+            out.append(("percent-encoded:separator", shape.replace("S", sp)))
+        out.append(("percent-encoded:separator+dotdot", f"%2e%2e{sp}%2e%2e{sp}b.txt"))
+    odot, oslash = "\udcc0\udcae", "\udcc0\udcaf"     # bytes C0 AE / C0 AF under surrogateescape
+    for dd in (odot + odot, "." + odot, odot + "."):
+        for shape in D_SHAPES[:4]:
+            out.append(("overlong-utf8:dotdot", shape.replace("D", dd)))
+    for shape in S_SHAPES[:4]:
+        out.append(("overlong-utf8:separator", shape.replace("S", oslash)))
+    # -- '..' with characters around / inside that a lenient layer drops or strips
+    cf, zs = format_and_space_chars()
+    for cls, chars in (("ignorable-format-character", cf), ("space-separator", zs + ["\t"])):
+        for c in chars:
+            for dd in ("." + c + ".", ".." + c, c + ".."):
+                out.append((cls + ":dotdot", f"{dd}/b.txt"))
+            out.append((cls + ":dotdot", f"a/..{c}/{c}../b.txt"))
+    return out
+
+
+def part_equiv(ctx, sb, quick):
+    """Names built from characters that are EQUIVALENT to path metacharacters
+    under some translation, on every loader configuration, get_source and
+    get_template, under the audit monitor."""
+    from jinja2 import Environment
+
+    mon = OpenMonitor.get()
+    cfgs = loader_configs(sb, quick)
+    envs = {label: Environment(loader=ld, cache_size=0) for label, ld, _ in cfgs}
+    names = equivalence_names(sb)
+    if ctx.shard == 0:
+        ctx.extra["equivalent_codepoints"] = len(equivalent_codepoints())
+        ctx.extra["equivalence_names"] = len(names)
+        ctx.sample({"part": "names", "loader": "fs:abs", "name": names[0][1],
+                    "name_class": "equiv:" + names[0][0]})
+    seen = set()
+    for i, (cls, name) in enumerate(names):
+        if not ctx.mine(i) or name in seen:
+            continue
+        seen.add(name)
+        ctx.count("equiv_names")
+        ctx.count("equiv_" + cls.split(":")[0])
+        ctx.count("equiv_as_" + cls.split(":", 1)[1])
+        for label, loader, roots in cfgs:
+            found = check_name(ctx, sb, mon, envs[label], label, loader, roots, name, True,
+                               "equiv:" + cls)
+            ctx.count("equiv_lookups", 2)
+            if found:
+                ctx.count("equiv_name_found")
+            ctx.dist(("equiv", cls, name.replace(sb.root, "$ROOT"), label))
 
 
 # --------------------------------------------------------- compositions
@@ -1007,6 +1206,7 @@ def run(ctx):
     try:
         part_dynamic(ctx, ses.sb, quick)
         part_hostile(ctx, ses.sb, quick)
+        part_equiv(ctx, ses.sb, quick)
         part_names(ctx, ses.sb, quick)
         part_compose(ctx, ses.sb, quick)
     finally:
